@@ -3,6 +3,7 @@ from the property statements.  Used (a) to attach a real failing input to a fail
 (b) in the thorough tier as assumption monitors / cross-check of the contracts."""
 import os, json, subprocess, time, re, shutil, hashlib
 VERIF = os.path.dirname(os.path.dirname(os.path.abspath(__file__)))
+EVDIR = os.environ.get('VERIF_EVIDENCE_DIR') or os.path.join(VERIF, 'evidence')
 REPO = os.environ.get('VERIF_REPO', '/repo')
 RDIR = os.path.join(VERIF, 'replay')
 
@@ -76,7 +77,7 @@ def run_families(prop, fams, wd, kf, seed):
     return res
 
 def write_replay(prop, obj):
-    d = os.path.join(VERIF, 'evidence', 'replay', prop); os.makedirs(d, exist_ok=True)
+    d = os.path.join(EVDIR, 'replay', prop); os.makedirs(d, exist_ok=True)
     name = re.sub(r'[^\w.-]+', '_', obj.get('obligation') or (obj.get('family', '') + '.' + obj.get('scenario', '')))[:150]
     p = os.path.join(d, name + '.json')
     with open(p, 'w') as f: json.dump(obj, f, indent=1)
